@@ -15,6 +15,10 @@ func init() {
 			}
 			runBounded(rep, opts, "c07", map[string]string{"ssa/abi/zz_verif_names_test.go": "harness/c07_names_test.go"}, []string{"./ssa/abi/"}, "TestZZVerifTypeNames",
 				[]string{"VERIF_C07=1"}, 1, "descriptor-name-iff-identical", "a fixed family of 56 types (1540 pairs) varying every attribute of Go type identity")
+			// same question asked of the whole naming pipeline: Go type -> raw type (Program.Type) -> descriptor name
+			runBounded(rep, opts, "c07p", map[string]string{"ssa/zz_verif_pipeline_names_test.go": "harness/c07_pipeline_test.go"}, []string{"./ssa/"}, "TestZZVerifPipelineTypeNames",
+				[]string{"VERIF_C07=1"}, 1, "descriptor-name-iff-identical", "a fixed family of 78 types (3003 pairs): the 56 above plus signatures whose parameters/results need the raw conversion (function-typed and named-function-typed parameters, variadic vs slice, nested in slice/pointer/map/chan/struct/interface)",
+				"-tags", "llvm14")
 		}}
 	PropConfigs["C20"] = &PropConfig{ID: "C20", Modules: []Module{{Dir: ".", Patterns: []string{"./internal/crosscompile"}}}, Specs: []string{"common.smt2", "paths.smt2"}}
 	PropConfigs["C10"] = &PropConfig{ID: "C10", Modules: []Module{rtModule}, Specs: []string{"common.smt2"}}
